@@ -504,3 +504,85 @@ func TestVerifC04Conc(t *testing.T) {
 		p.Close()
 	}
 }
+
+// TestVerifC04Stress: bursts of selections by 8 goroutines on one pool, tallied without logging
+// each call (so that the calls really overlap), recorded as one `batch` event per burst; between
+// bursts the list is replaced and a few single requests are sent.
+func TestVerifC04Stress(t *testing.T) {
+	w := vx.NewWriter(t, "VERIF_OUT")
+	defer w.Close()
+	tr := &c04Transport{}
+	fnSendRequest = tr.send
+	rng := vx.Rand(40404)
+	nTraces := vx.EnvInt("VERIF_N", 30)
+	perG := vx.EnvInt("VERIF_STEPS", 2000)
+	for ti := 0; ti < nTraces; ti++ {
+		cfg := c04RandConfig(rng)
+		if ti%2 == 0 {
+			cfg.Policy = "roundRobin"
+		}
+		p, err := c04NewProxy(cfg)
+		if err != nil {
+			w.Emit(vx.M{"ev": "rejected", "cfg": cfg, "err": err.Error()})
+			continue
+		}
+		sp := p.mainPool
+		keys := c04NewKeys(rng)
+		w.Emit(vx.M{"ev": "reset", "cfg": cfg})
+		bursts := 1 + rng.Intn(3)
+		for b := 0; b < bursts; b++ {
+			if b > 0 && cfg.Disc {
+				insts := c04RandInsts(rng)
+				sp.useService(c04Instances(insts))
+				w.Emit(vx.M{"ev": "rep", "insts": insts})
+			}
+			const G = 8
+			n := 1 + rng.Intn(perG)
+			tallies := make([]map[[2]string]int, G)
+			start := make(chan struct{})
+			var wg sync.WaitGroup
+			for g := 0; g < G; g++ {
+				wg.Add(1)
+				seed := rng.Int63()
+				go func(g int, seed int64) {
+					defer wg.Done()
+					lr := vx.Rand(seed)
+					reqs := map[string]*httpprot.Request{}
+					for i := 0; i < 4; i++ {
+						k := fmt.Sprintf("k%d", i)
+						reqs[k] = keys.request(k)
+					}
+					tally := map[[2]string]int{}
+					<-start
+					for i := 0; i < n; i++ {
+						k := fmt.Sprintf("k%d", lr.Intn(4))
+						tally[[2]string{k, c04Choose(sp, reqs[k])}]++
+					}
+					tallies[g] = tally
+				}(g, seed)
+			}
+			close(start)
+			wg.Wait()
+			total := map[[2]string]int{}
+			for _, tl := range tallies {
+				for k, c := range tl {
+					total[k] += c
+				}
+			}
+			picks := []vx.M{}
+			for k, c := range total {
+				picks = append(picks, vx.M{"k": k[0], "id": k[1], "c": c})
+			}
+			sort.Slice(picks, func(i, j int) bool {
+				return picks[i]["k"].(string)+"/"+picks[i]["id"].(string) < picks[j]["k"].(string)+"/"+picks[j]["id"].(string)
+			})
+			w.Emit(vx.M{"ev": "batch", "picks": picks, "n": n * G})
+			// the sequence must go on consistently after the burst
+			for i := 0; i < 3; i++ {
+				k := fmt.Sprintf("k%d", rng.Intn(4))
+				w.Emit(vx.M{"ev": "ch", "k": k, "r": c04Handle(p, tr, keys.request(k))})
+			}
+		}
+		p.Close()
+	}
+}
